@@ -33,7 +33,8 @@ META = {'title': 'Loading a well-formed SNA/SZX/SCR file yields exactly the desc
               'candidate repairs; tied to the code by differential correspondence on independently written files',
  'level_text': 'Refinement theorem in Lean 4 (szx_load_is_describe): for every well-formed zx-state file (any chunk '
                'order, unknown chunks, stored or compressed pages, missing pages) and every state of the receiving '
-               'machine the repaired loader model yields exactly the abstract state the format spec describes; '
+               'machine the repaired loader model yields exactly the abstract state the format spec describes, likewise '
+               'for every well-formed SNA file (sna_load_is_describe); '
                'companion theorems for SCR, model mismatch, AY audible state and compressed-vs-stored agreement; for '
                'the code as it is each known defect is proved as a chunk-level counter-example. The model variant '
                'matching the tree under test is detected and tied to the Rust code on every run by a correspondence '
@@ -43,5 +44,4 @@ META = {'title': 'Loading a well-formed SNA/SZX/SCR file yields exactly the desc
                '(Fixes.all); for the unrepaired code the defects (lock leak, prefix/halt leak, HALTED PC, border '
                'device, AY generator, model mismatch) are proved as counter-examples per chunk / per load and the '
                'agreement of the remaining behaviour rests on the correspondence run with the Fixes.none model. '
-               'A generic "snaLoad = describeSna" theorem for arbitrary SNA files is not proved (C13 proves it for '
-               'every file the writer produces); external decompressor internals are not modelled.'}
+               'External decompressor internals are not modelled.'}
